@@ -111,7 +111,7 @@ def base_scenarios():
     T = {"EMPTY_ACK_DELAY": 0.125}
     S = []
 
-    def mk(name, steps, triggers=(), handlers=None, other=False):
+    def mk(name, steps, triggers=(), handlers=None, other=False, autoreply=()):
         S.append(
             {
                 "name": name,
@@ -123,6 +123,7 @@ def base_scenarios():
                 "other_context": other,
                 "steps": steps,
                 "triggers": list(triggers),
+                "autoreply": [dict(a) for a in autoreply],
                 "horizon": HORIZON,
             }
         )
@@ -181,6 +182,18 @@ def base_scenarios():
         ],
         handlers={"1": {"delay": 2600, "outcome": "ok"}},
         other=True,
+    )
+    mk(
+        "mid-blockwise-upload",
+        [{"at": 0, "do": "submit", "q": 1, "r": 1, "con": True, "code": 3, "payload_len": 3000, "blockwise": True, "f": 0.5}],
+        autoreply=[{"match": {"b1more": 1}, "code": 95, "echo_b1": True, "delay": 300, "max": 2}],
+    )
+    mk(
+        "active-client-observation",
+        [{"at": 0, "do": "submit", "q": 1, "r": 1, "con": True, "observe": 0, "f": 0.5},
+         {"at": 900, "do": "rx", "r": 1, "ty": "CON", "code": 69, "mid": 7001, "tok": {"of": 1}, "observe": 5, "payload": "01"},
+         {"at": 1800, "do": "rx", "r": 1, "ty": "NON", "code": 69, "mid": 7002, "tok": {"of": 1}, "observe": 6, "payload": "02"}],
+        autoreply=[{"match": {"observe": 0}, "code": 69, "observe": 4, "delay": 20, "max": 1}],
     )
     mk(
         "icmp-error-then-more",
